@@ -6,28 +6,28 @@ DIRTY_QTYPES = [1, 28, 2, 15, 33, 16, 99]
 
 
 def gen(rng, tier, n_cat=None):
+    """quick: every owner and ancestor x all QTYPEs, a 10% sample of the names within two labels x 3 QTYPEs;
+    thorough: 40 catalogs with the complete product, then 300 catalogs sampled as in quick"""
     quick = tier == "quick"
-    n_cat = n_cat or (70 if quick else 1500)
-    for _ in range(n_cat):
-        zones = qgen.gen_catalog(rng)
-        cat = ";".join(z.render() for z in zones)
-        dirty = any(z.dirty for z in zones)
-        qtypes = DIRTY_QTYPES if dirty else qgen.QTYPES
-        classes = sorted({z.cls for z in zones})
-        names = qgen.query_names(rng, zones)
-        owners = {tuple(o) for z in zones for o in z.owners + [z.apex]}
-        for nm in names:
-            core = tuple(nm) in owners or any(tuple(nm) == o[len(o) - len(nm):] for o in owners if len(nm) <= len(o))
-            if quick and not core and rng.random() < 0.9:
-                continue
-            qn = qgen.flip(rng, nm, 0.1)
-            if core or not quick:
-                tys = qtypes
-            else:
-                tys = rng.sample(qtypes, 3)
-            for ty in tys:
-                cl = classes[0] if len(classes) == 1 or rng.random() < 0.7 else rng.choice(classes)
-                yield f"{cat} {wirehex(qn)} {ty} {cl}"
+    plan = [(n_cat or 70, False)] if quick or n_cat else [(40, True), (300, False)]
+    for count, full in plan:
+        for _ in range(count):
+            zones = qgen.gen_catalog(rng)
+            cat = ";".join(z.render() for z in zones)
+            dirty = any(z.dirty for z in zones)
+            qtypes = DIRTY_QTYPES if dirty else qgen.QTYPES
+            classes = sorted({z.cls for z in zones})
+            names = qgen.query_names(rng, zones)
+            owners = {tuple(o) for z in zones for o in z.owners + [z.apex]}
+            for nm in names:
+                core = tuple(nm) in owners or any(tuple(nm) == o[len(o) - len(nm):] for o in owners if len(nm) <= len(o))
+                if not full and not core and rng.random() < 0.9:
+                    continue
+                qn = qgen.flip(rng, nm, 0.1)
+                tys = qtypes if (core or full) else rng.sample(qtypes, 3)
+                for ty in tys:
+                    cl = classes[0] if len(classes) == 1 or rng.random() < 0.7 else rng.choice(classes)
+                    yield f"{cat} {wirehex(qn)} {ty} {cl}"
 
 
 def _fields(line):
@@ -93,7 +93,7 @@ RULE = ("seeded catalogs of 1-3 zones (nested: the child zone of a delegation of
 CHECK = {
     "property": "C05",
     "props": "Props/C05.v",
-    "theorems": ["c05_answer_refines", "c05_chain_bound", "c05_loop_servfail", "c05_negative_ttl", "c05_mandatory_glue",
+    "theorems": ["c05_answer_refines", "c05_dispatch_in_zone", "c05_chain_bound", "c05_loop_servfail", "c05_negative_ttl", "c05_mandatory_glue",
                  "c05_negative_ttl_refuted_prefix"],
     "allowed_axioms": [],
     "suites": [{
